@@ -1039,7 +1039,8 @@ int ov_fopen(const char *path,OggVorbis_File *vf){
    no need for SRC as we can just do it cheaply in libvorbis. */
 
 int ov_halfrate(OggVorbis_File *vf,int flag){
-  int i;
+  int i,ret=0;
+  ogg_int64_t pos=-1;
   if(vf->vi==NULL)return OV_EINVAL;
   if(vf->ready_state>STREAMSET){
     /* clear out stream state; dumping the decode machine is needed to
@@ -1047,20 +1048,22 @@ int ov_halfrate(OggVorbis_File *vf,int flag){
     vorbis_dsp_clear(&vf->vd);
     vorbis_block_clear(&vf->vb);
     vf->ready_state=STREAMSET;
-    if(vf->pcm_offset>=0){
-      ogg_int64_t pos=vf->pcm_offset;
-      vf->pcm_offset=-1; /* make sure the pos is dumped if unseekable */
-      ov_pcm_seek(vf,pos);
-    }
+    pos=vf->pcm_offset;
+    vf->pcm_offset=-1; /* make sure the pos is dumped if unseekable */
   }
 
   for(i=0;i<vf->links;i++){
     if(vorbis_synthesis_halfrate(vf->vi+i,flag)){
       if(flag) ov_halfrate(vf,0);
-      return OV_EINVAL;
+      ret=OV_EINVAL;
+      break;
     }
   }
-  return 0;
+
+  /* restore the position only now: the seek rebuilds the decode
+     machine, which has to see the new setting */
+  if(pos>=0) ov_pcm_seek(vf,pos);
+  return ret;
 }
 
 int ov_halfrate_p(OggVorbis_File *vf){
